@@ -24,6 +24,10 @@ def _pos(pl, jde, **kw):
     return float(L), float(B), float(R)
 
 
+ORB_DAYS = {"Mercury": 88.0, "Venus": 224.7, "Earth": 365.3, "Mars": 687.0, "Jupiter": 4333.0, "Saturn": 10759.0, "Uranus": 30689.0,
+            "Neptune": 60182.0}
+
+
 def gen_track(pl, seed, nsparse, runs, runlen, nsec):
     """positions of one planet in increasing time: sparse samples over -2000..4000, `runs` runs of
     `runlen` daily steps, and nsec groups of five 1-second steps"""
@@ -35,6 +39,26 @@ def gen_track(pl, seed, nsparse, runs, runlen, nsec):
     for _ in range(nsec):
         a = rng.uniform(J_M2000 + 1, J_4000 - 1)
         ts += [a + i / 86400.0 for i in range(5)]
+    # the instants at which the planet crosses longitude 0 / 360 (found by bisection on the uncorrected longitude) and a
+    # few seconds around them: the seam of the output range
+    for _ in range(max(1, nsec // 2)):
+        a = rng.uniform(J_M2000 + 1, J_4000 - 2 * ORB_DAYS.get(pl, 400.0) - 1)
+        step = ORB_DAYS.get(pl, 400.0) / 40.0
+        t0, prev = a, _pos(pl, a, tofk5=False)[0]
+        for _k in range(60):
+            t1 = t0 + step
+            cur = _pos(pl, t1, tofk5=False)[0]
+            if cur < prev - 180.0:
+                lo_, hi_ = t0, t1
+                for _b in range(50):
+                    mid = 0.5 * (lo_ + hi_)
+                    if _pos(pl, mid, tofk5=False)[0] > 180.0:
+                        lo_ = mid
+                    else:
+                        hi_ = mid
+                ts += [hi_ + d for d in (-2e-5, -5e-6, 0.0, 2e-6, 5e-6, 1e-5, 2e-5, 1e-4)]
+                break
+            t0, prev = t1, cur
     for t in sorted(ts):
         try:
             from pymeeus.Epoch import Epoch
